@@ -31,7 +31,7 @@ S = Suite(
          "calls per case on related inputs",
     bound="grids 6..24 x 6..20 (even with truncated/full modes, odd with clamped modes), dx!=dy, "
           "hand-built anisotropic veering profiles (Kx!=Ky!=Kz, 5 families, nz 6..12; 30 % of the cases with a "
-          "subset of the components u, v, Kx, Ky, Kz held constant with height, 12 patterns), random / "
+          "subset of the components u, v, Kx, Ky, Kz held constant with height, 12 patterns; 10 % with Kx = Ky at the top node only), random / "
           "sparse sources, footprint and dispersion mode (with and without re-centring), halo 0 "
           "for mirrors, halo 0/None/commensurate/incommensurate for swap, halo 0 / robustly "
           "incommensurate / None (s a power of two) for scalings, factors 1e-6..1e6 (every "
@@ -85,6 +85,11 @@ def make_profiles(spec):
     # height-independent and height-dependent components is a legitimate column
     for k in spec.get("const", ()):
         comps[k] = np.full(nz, float(comps[k][nz // 2]))
+    if spec.get("eq_top"):
+        # horizontally isotropic at the top node only (Kx = Ky there), anisotropic below: what holds at one node says
+        # nothing about the others
+        comps[3] = comps[3].copy()
+        comps[3][-1] = comps[2][-1]
     return z, tuple(comps)
 
 
@@ -303,8 +308,11 @@ def generate(tier, rng):
         pk = rng.randrange(len(PROFILES))
         nz = PROFILES[pk]["nz"]
         prof = PROFILES[pk]
-        if rng.random() < 0.3:
+        r_ = rng.random()
+        if r_ < 0.3:
             prof = dict(prof, const=CONST_PATTERNS[rng.randrange(len(CONST_PATTERNS))])
+        elif r_ < 0.4:
+            prof = dict(prof, eq_top=True)
         fp = rng.random() < 0.5
         if fp or rng.random() < 0.5:
             im, jm = rng.randint(0, nx - 1), rng.randint(0, ny - 1)
